@@ -68,6 +68,8 @@ def run(ck):
                       "_det": det, "_docs": docs})
         ck.count("family:" + fam)
     wit = rulebase.witness_cases(ck, "C01")
+    for c in cases:
+        c["otrees"] = True      # the optimised trees themselves are part of the compared line
     allc = cases + wit
     send = rulebase.wire(allc)
     impl, model, _ = lib.run_cases(send, "C01", runner_args=["--known"])
